@@ -52,7 +52,8 @@ def methodStep (m : PMethod) (field : String) (value : Val) : R PMethod :=
   if m = .unset && (field != "_id" || value.truthy) then
     .ok (if value.truthy then .inc else .exc)
   else if m = .inc && !value.truthy && field != "_id" then .error .opFail
-  else if m = .exc && value.truthy then .error .opFail
+  else if m = .exc && value.truthy && (field != "_id" || !(pyEq value (.int 1))) then
+    .error .opFail
   else .ok m
 
 theorem projStep_flag (docs : List Val) (m : PMethod) (acc : List String) (field : String)
@@ -96,18 +97,18 @@ theorem projLoop_flags (docs : List Val) : ∀ (options : Fields) (m : PMethod) 
 theorem projectStage_flags (options : Fields) (docs : List Val)
     (h : options.all (fun kv => isFlag kv.2) = true) :
     projectStage (.doc options) docs = aggProject docs (.doc options) := by
-  have hl := projLoop_flags docs options .unset [] h
+  have hl := projLoop_flags docs options (aggInitMethod options) [] h
   simp only [projectStage, projectStageOpt, aggProject, h, Bool.not_true, Bool.false_eq_true,
     if_false, aggFilterList, bind, Except.bind, pure, Except.pure]
-  cases hs : aggScan options .unset [] with
+  cases hs : aggScan options (aggInitMethod options) [] with
   | error e =>
     rw [hs] at hl
-    have hl' : projLoop docs options {} = .error e := hl
+    have hl' : projLoop docs options { method := aggInitMethod options } = .error e := hl
     simp only [hl']
   | ok mf =>
     obtain ⟨m, fl⟩ := mf
     rw [hs] at hl
-    have hl' : projLoop docs options {} = .ok ⟨m, fl, none⟩ := hl
+    have hl' : projLoop docs options { method := aggInitMethod options } = .ok ⟨m, fl, none⟩ := hl
     simp only [hl', beq_iff_eq, List.isEmpty_iff, Option.map_none]
     generalize (if decide (m = PMethod.inc) = !pyEq ((dget "_id" options).getD (Val.int 1)) (Val.int 0)
       then fl ++ ["_id"] else fl) = fl'
